@@ -48,7 +48,7 @@ def profiles(thorough):
         # w1 holds k1, w2 holds k2 (each other's frames lose one series); w3 holds nothing
         # while w1 is open and becomes k1's holder afterwards
         "writers": [
-            {"id": "w1", "keys": ["k1", "k2"], "auth": {"k1": 200, "k2": 100}, "mode": "stream", "sync": True, "late": False},
+            {"id": "w1", "keys": ["k1", "k2"], "auth": {"k1": 200, "k2": 100}, "mode": "stream", "sync": False, "late": False},
             {"id": "w2", "keys": ["k1", "k2"], "auth": {"k1": 100, "k2": 200}, "mode": "stream", "sync": False, "late": True},
             {"id": "w3", "keys": ["k1"], "auth": {"k1": 150}, "mode": "stream", "sync": True, "late": False},
         ],
@@ -233,10 +233,10 @@ def decorate(script, rnd, mode, p=None):
         i = 0
         while i < len(script):
             o = script[i]
-            if o["a"] == "write" and o["p"] in nosync and rnd.random() < 0.5:
+            if o["a"] == "write" and o["p"] in nosync and rnd.random() < 0.6:
                 later = [j for j in range(i + 1, len(script)) if script[j]["a"] == "write" and script[j]["p"] == o["p"]]
-                if later:
-                    script.insert(i + 1, script.pop(later[0]))
+                for j in later[:rnd.choice([1, 1, 2])]:
+                    script.insert(i + 1, script.pop(j))
                     i += 1
             i += 1
     ops = []
